@@ -58,6 +58,11 @@ def run_worker(args):
     reach = Reach(REPO)
     if os.environ.get("STIXMON_REACH", "1") != "0":
         reach.start()
+    errmon = None
+    if getattr(mod, "PRINTABLE_ERRORS", False):
+        from .errmon import ErrorMonitor
+        errmon = ErrorMonitor()
+        errmon.install()
     try:
         if hasattr(mod, "setup"):
             mod.setup(ctx)
@@ -70,6 +75,8 @@ def run_worker(args):
                     wl.fn(ctx, ctx.case_rng(wl.name, i), i)
                 except Exception as e:  # a bug in the harness, or an unguarded library call
                     ctx.harness_error("case", e)
+                if errmon is not None:
+                    errmon.end_of_case(ctx)
                 ctx.count("cases:%s" % wl.name)
             ctx.cur = None
         if hasattr(mod, "teardown"):
